@@ -142,6 +142,8 @@ def make_case(rng, tier):
         # data of small / large magnitude (exact power-of-two scaling; pivots of R_0 around 1e-9 are far above the default
         # rank threshold 1e-14): R, U scale with A, L of Cholesky with its square root, Q and L of LU not at all
         c['scale_log2'] = rng.choice([-30, -24, 20])
+    if 'out_seed' not in c and rng.random() < 0.3:
+        c['layout'] = 'F'
     if kind == 'qr' and 'out_seed' not in c and 'scale_log2' not in c and rng.random() < 0.2:
         # data far below the default rank threshold with the documented keyword: UTPM.qr(A, epsilon=...) for every shape
         c['scale_log2'] = -52
@@ -160,6 +162,9 @@ def check(c):
     scale = 2.0 ** c.get('scale_log2', 0)
     x = x * scale
     A = UTPM(x.copy())
+    if c.get('layout') == 'F' and x.ndim == 4:
+        # every coefficient slice Fortran-ordered (what A.T hands over): LAPACK may then work in place on the operand
+        A = UTPM(np.ascontiguousarray(x.swapaxes(-1, -2)).swapaxes(-1, -2))
     tol = 1e-8
     def stale(*shape):
         r_ = np.random.RandomState(c['out_seed'] % (1 << 31))
